@@ -415,6 +415,181 @@ theorem C15_static_eq_dynamic {δ : Type} (tc : TestCase) (drv : Driver δ) (fue
                   (by cases b; exact hr1) hr2
                 exact ⟨by simp [hm.1, ih.1], ih.2⟩
 
+/-! ### static = dynamic for runs that go on behind evaluation errors -/
+
+/-- an item of a continued run as far as a static row can tell: a row, or an evaluation error met before any call -/
+inductive CItem where
+  | row (r : StaticRow)
+  | evalErr (e : ExprErr)
+
+/-- the first `n` items of a run that goes on behind evaluation errors (`RowIt.nextC`); `none` as soon as anything else
+happens (the end, an error item of the IO step, `fuel`) -/
+def itemsC {δ : Type} (tc : TestCase) (drv : Driver δ) (fuel : Nat) : Nat → RowIt → δ → Option (List CItem × RowIt × δ)
+  | 0, s, d => some ([], s, d)
+  | n+1, s, d =>
+    match RowIt.nextC tc drv fuel s d with
+    | .item (.row r) s' d' _ =>
+      match itemsC tc drv fuel n s' d' with
+      | some (is, s'', d'') => some (.row r.toStatic :: is, s'', d'')
+      | none => none
+    | .item (.err (.expr e)) s' d' [] =>
+      match itemsC tc drv fuel n s' d' with
+      | some (is, s'', d'') => some (.evalErr e :: is, s'', d'')
+      | none => none
+    | _ => none
+
+theorem next_of_nextC_row {δ : Type} (tc : TestCase) (drv : Driver δ) (fuel : Nat) (s s' : RowIt) (d d' : δ) (r : DataRow)
+    (calls : List Call) (h : RowIt.nextC tc drv fuel s d = .item (.row r) s' d' calls) :
+    RowIt.next tc drv fuel s d = .item (.row r) s' d' calls := by
+  have hobs := nextC_obs tc drv fuel s d
+  rw [h] at hobs
+  cases hn : RowIt.next tc drv fuel s d with
+  | item i s2 d2 c2 =>
+    rw [hn] at hobs
+    simp only [NextOut.obs, Option.some.injEq, Prod.mk.injEq] at hobs
+    obtain ⟨hi, hd, hc⟩ := hobs
+    subst hi; subst hd; subst hc
+    have := (nextC_eq_next_of_row tc drv fuel s d).1 r s2 d' calls hn
+    rw [h] at this
+    simp only [NextOut.item.injEq, true_and, and_true] at this
+    rw [this]
+  | none s2 d2 => rw [hn] at hobs; simp [NextOut.obs] at hobs
+  | panic m c => rw [hn] at hobs; simp [NextOut.obs] at hobs
+  | fuel => rw [hn] at hobs; simp [NextOut.obs] at hobs
+
+theorem getRow_of_nextC_evalErr {δ : Type} (tc : TestCase) (drv : Driver δ) (fuel : Nat) (s s' : RowIt) (d d' : δ) (e : ExprErr)
+    (h : RowIt.nextC tc drv fuel s d = .item (.err (.expr e)) s' d' []) :
+    getRow tc fuel s = .err e ∧ s' = s.afterEvalErr fuel ∧ d' = d := by
+  unfold RowIt.nextC at h
+  split at h
+  · next e1 hg =>
+    simp only [NextOut.item.injEq, Item.err.injEq, IterErr.expr.injEq, and_true] at h
+    obtain ⟨he, hs, hd⟩ := h
+    subst he
+    exact ⟨hg, hs.symm, hd.symm⟩
+  · cases h
+  · cases h
+  · cases h
+  · split at h
+    · split at h
+      · simp at h
+      · simp only at h
+        split at h <;> simp at h
+    · split at h <;> simp at h
+
+/-- **Static = dynamic, for runs continued behind evaluation errors.**  If the first `n` items of the static run and of
+a dynamic run (any driver), both going on behind evaluation errors, are rows and evaluation errors — none of them
+"unassigned name" in the static run (known finding KF1) —, they are the same items in the same order: the same rows as
+far as a static row can tell, the same errors at the same places; and the two iterators are in lock step afterwards. -/
+theorem C15_static_eq_dynamic_continued {δ : Type} (tc : TestCase) (drv : Driver δ) (fuel : Nat) :
+    ∀ (n : Nat) (s₁ s₂ : RowIt) (d : δ) (is₁ is₂ : List CItem) (s₁' s₂' : RowIt) (d' : δ) (u : Unit),
+      SimS s₁ s₂ →
+      itemsC tc staticDriver fuel n s₁ () = some (is₁, s₁', u) →
+      itemsC tc drv fuel n s₂ d = some (is₂, s₂', d') →
+      (∀ e, CItem.evalErr e ∈ is₁ → ∀ x, e ≠ .unassigned x) →
+      (is₂.map (fun i => match i with | .row r => (some r, none) | .evalErr e => (none, some e)) =
+       is₁.map (fun i => match i with | .row r => (some r, none) | .evalErr e => (none, some e))) ∧ SimS s₁' s₂'
+  | 0, s₁, s₂, d, is₁, is₂, s₁', s₂', d', u, h, h1, h2, _ => by
+    simp only [itemsC, Option.some.injEq, Prod.mk.injEq] at h1 h2
+    obtain ⟨rfl, rfl, _⟩ := h1
+    obtain ⟨rfl, rfl, _⟩ := h2
+    exact ⟨rfl, h⟩
+  | n+1, s₁, s₂, d, is₁, is₂, s₁', s₂', d', u, h, h1, h2, hne => by
+    simp only [itemsC] at h1 h2
+    cases hn1 : RowIt.nextC tc staticDriver fuel s₁ () with
+    | none a b => simp [hn1] at h1
+    | panic a b => simp [hn1] at h1
+    | fuel => simp [hn1] at h1
+    | item i a b calls =>
+      cases i with
+      | row r₁ =>
+        simp only [hn1] at h1
+        have hnx := next_of_nextC_row tc staticDriver fuel s₁ a () b r₁ calls hn1
+        obtain ⟨ev, s1g, s2g, _, _, _, _, hm⟩ := C15_next_row tc drv fuel s₁ s₂ a d b r₁ calls h hnx
+        cases hr1 : itemsC tc staticDriver fuel n a b with
+        | none => simp [hr1] at h1
+        | some t1 =>
+          obtain ⟨rs1, s1e, u1⟩ := t1
+          simp only [hr1, Option.some.injEq, Prod.mk.injEq] at h1
+          obtain ⟨rfl, rfl, _⟩ := h1
+          cases hn2 : RowIt.nextC tc drv fuel s₂ d with
+          | none a2 b2 => simp [hn2] at h2
+          | panic a2 b2 => simp [hn2] at h2
+          | fuel => simp [hn2] at h2
+          | item i2 a2 b2 calls2 =>
+            cases i2 with
+            | row r₂ =>
+              simp only [hn2] at h2
+              have hnx2 := next_of_nextC_row tc drv fuel s₂ a2 d b2 r₂ calls2 hn2
+              simp only [hnx2] at hm
+              cases hr2 : itemsC tc drv fuel n a2 b2 with
+              | none => simp [hr2] at h2
+              | some t2 =>
+                obtain ⟨rs2, s2e, d2⟩ := t2
+                simp only [hr2, Option.some.injEq, Prod.mk.injEq] at h2
+                obtain ⟨rfl, rfl, _⟩ := h2
+                have ih := C15_static_eq_dynamic_continued tc drv fuel n a a2 b2 rs1 rs2 _ _ d2 u1 hm.2
+                  (by cases b; exact hr1) hr2 (fun e he => hne e (List.mem_cons_of_mem _ he))
+                exact ⟨by simp [hm.1, ih.1], ih.2⟩
+            | err e2 =>
+              -- the dynamic item is an error: it can only be one of the IO step (a call was made), which ends `itemsC`
+              exfalso
+              have hobs := nextC_obs tc drv fuel s₂ d
+              rw [hn2] at hobs
+              cases hnn : RowIt.next tc drv fuel s₂ d with
+              | item i3 s3 d3 c3 =>
+                rw [hnn] at hobs hm
+                simp only [NextOut.obs, Option.some.injEq, Prod.mk.injEq] at hobs
+                obtain ⟨hi, _, hc⟩ := hobs
+                subst hi; subst hc
+                simp only at hm
+                -- one call was made: not an evaluation error item
+                simp only [hn2] at h2
+                cases e2 with
+                | expr ee =>
+                  cases calls2 with
+                  | nil => simp at hm
+                  | cons c cs => simp at h2
+                | driver x => simp at h2
+                | wrongNumberOfOutputs x y => simp at h2
+                | wrongOutputOrder => simp at h2
+                | missingOutputs x => simp at h2
+              | none s3 d3 => rw [hnn] at hm; exact hm
+              | panic m c => rw [hnn] at hobs; simp [NextOut.obs] at hobs
+              | fuel => rw [hnn] at hm; exact hm
+      | err e₁ =>
+        -- an error item of the static run that `itemsC` goes on behind: an evaluation error, no call
+        cases e₁ with
+        | expr ee =>
+          cases calls with
+          | cons c cs => simp [hn1] at h1
+          | nil =>
+            simp only [hn1] at h1
+            obtain ⟨hg, hs, hu⟩ := getRow_of_nextC_evalErr tc staticDriver fuel s₁ a () b ee hn1
+            cases hr1 : itemsC tc staticDriver fuel n a b with
+            | none => simp [hr1] at h1
+            | some t1 =>
+              obtain ⟨rs1, s1e, u1⟩ := t1
+              simp only [hr1, Option.some.injEq, Prod.mk.injEq] at h1
+              obtain ⟨rfl, rfl, _⟩ := h1
+              have hun : ∀ x, ee ≠ .unassigned x := hne ee (List.mem_cons_self ..)
+              obtain ⟨_, hd2, hsim⟩ := C15_lock_step_behind_error tc drv fuel s₁ s₂ d ee h hg hun
+              simp only [hd2] at h2
+              cases hr2 : itemsC tc drv fuel n (s₂.afterEvalErr fuel) d with
+              | none => simp [hr2] at h2
+              | some t2 =>
+                obtain ⟨rs2, s2e, d2⟩ := t2
+                simp only [hr2, Option.some.injEq, Prod.mk.injEq] at h2
+                obtain ⟨rfl, rfl, _⟩ := h2
+                subst hs
+                have ih := C15_static_eq_dynamic_continued tc drv fuel n _ _ d rs1 rs2 _ _ d2 u1 hsim
+                  (by cases b; exact hr1) hr2 (fun e he => hne e (List.mem_cons_of_mem _ he))
+                exact ⟨by simp [ih.1], ih.2⟩
+        | driver x => simp [hn1] at h1
+        | wrongNumberOfOutputs x y => simp [hn1] at h1
+        | wrongOutputOrder => simp [hn1] at h1
+        | missingOutputs x => simp [hn1] at h1
+
 /-- **Determinism of the model**: parsing, binding and every step of a run are functions — the same
 text, signal list, iterator state, driver state and responses give the same result; an iterator
 owns all of its run state (`RowIt`), the test is only read.  (Stated for the record: in Lean this is
